@@ -13,7 +13,7 @@ from simkit import gen, launch, pipe
 from simkit.kernel import EventLog, Forks, RunStats, Scratch, Violation, digest, f64_bits, sub_rng
 
 SPEC = {
-    "C06": dict(engine="scoresim", level="exploration", runs=dict(quick=600, thorough=12000), chunk=5,
+    "C06": dict(engine="scoresim", level="exploration", runs=dict(quick=600, thorough=6000), chunk=5,
                 rule="per run: a screen with 1-12 plates (some observed), a batch of already selected ids (empty / unobserved / "
                      "observed / mixed / all candidates), n_chunks from 1 to more than the number of candidates, one scoring worker "
                      "per chunk (real CLI or direct call) with a recording scorer (Size / Random / GaussianDBAL / scripted scores with "
